@@ -73,7 +73,10 @@ def witness_defs(mode, shape, kcls, feat, top, nsub, excl, maxsize):
     if mode == 0:
         d["H_W_BF"] = any(bfcap) and n >= 2
         # two adjacent bit-fields of which the second can overflow the unit of its type
-        d["H_W_BF2"] = any(bfcap[i] and bfcap[i + 1] and kcls[i + 1] != KC_B for i in range(n - 1))
+        esz = [4 if cls[i] == ENUM else KC_SIZE[kcls[i]] for i in range(n)]
+        d["H_W_BF2"] = any(bfcap[i] and bfcap[i + 1] and kcls[i + 1] != KC_B
+                           and (not excl & 4 or kcls[i] == KC_ANY or kcls[i + 1] == KC_ANY or esz[i + 1] <= esz[i])
+                           for i in range(n - 1))
         d["H_W_ARR"] = any(arr)
         d["H_W_NESTED"] = NESTED in cls or NESTED_U in cls
         d["H_W_ANON"] = ANON in cls or ANON_U in cls
@@ -187,14 +190,18 @@ def obligations(tier):
     obs.append(ob(0, [T, T], [I, I], 0, excl=1, timeout=to, tag=".finding-zero-width-bit-field"))
     obs.append(ob(0, [T, T], [C, I], 0, excl=2, timeout=to, tag=".finding-unnamed-bit-field"))
     obs.append(ob(0, [T, T, T], [C, I, L], 0, excl=3, timeout=to, tag=".finding-bit-field-after-narrower-unit"))
+    obs.append(ob(1, [T, T], [D, I], 0, excl=0, timeout=to, tag=".finding-zero-width-bit-field-classified-INTEGER"))
     for mode in (0, 1):
-        ex = 3 if mode == 0 else 0   # layout: re-proved without the two findings; passing: assumes equal layout anyway
-        tg = ".named-bf" if mode == 0 else ""
+        # layout: re-proved without the recorded layout findings (named bit-fields only); passing: assumes equal layout
+        # anyway, re-proved without zero-width bit-fields (recorded finding: classify_arg makes their eightbyte INTEGER)
+        ex = 3 if mode == 0 else 2
+        tg = ".named-bf" if mode == 0 else ".no-zero-width"
         # one member: type fully symbolic
         for top in (0, 1):
             obs.append(ob(mode, [T], [ANY], top, excl=ex, maxsize=64, timeout=to, tag=tg))
             obs.append(ob(mode, [T | ARR], [ANY], top, excl=ex, maxsize=64, timeout=to, tag=tg))
-            for sh in ([P], [E], [S], [AU]) if quick else ([P], [E], [S], [A], [U], [AU], [S | ARR], [P | ARR]):
+            for sh in (([P], [E], [S], [AU]) if mode == 0 else ([P],) if top == 0 else ([AU],)) if quick else \
+                      ([P], [E], [S], [A], [U], [AU], [S | ARR], [P | ARR]):
                 obs.append(ob(mode, sh, [ANY], top, excl=ex, timeout=to, tag=tg))
         # two members: every pair of size classes
         classes = [C, I, L, D, LD] if quick else [C, B, SH, I, L, F, D, LD]
@@ -203,13 +210,17 @@ def obligations(tier):
                 for top in (0, 1):
                     if quick and top == 1 and a != b and (a, b) not in ((I, LD), (L, D), (C, L)):
                         continue
+                    if not quick and top == 1 and (a > b or B in (a, b) or F in (a, b)):
+                        continue   # union members all start at 0: one order, without the classes of equal size
                     obs.append(ob(mode, [T, T], [a, b], top, excl=ex, timeout=to, tag=tg))
         for top in (0, 1):
             for sh, kc in (([T | ARR, T], [C, I]), ([T, T | ARR], [I, D]), ([T, P], [I, ANY]), ([E, T], [ANY, C]),
                            ([T, S], [I, ANY]), ([U, T], [ANY, I]), ([T, A], [C, ANY]), ([AU, T], [ANY, L])):
+                if quick and mode == 1 and (top == 1 or (sh[0] & 7) in AGGR + (ENUM,) or (sh[1] & 7) in AGGR):
+                    continue   # thorough tier (passing obligations with a nested aggregate next to another member: minutes)
                 obs.append(ob(mode, sh, kc, top, excl=ex, timeout=to, tag=tg))
         # three / four members
-        ex3 = 7 if mode == 0 else 0
+        ex3 = 7 if mode == 0 else 2
         triples = [[C, I, L], [L, C, D]] if quick else \
                   [[C, I, L], [I, I, I], [L, C, D], [C, C, C], [I, C, I], [L, I, C], [D, F, F], [LD, C, L], [SH, C, I], [B, I, B],
                    [I, L, I], [C, SH, L], [F, I, F], [L, L, L]]
@@ -238,18 +249,35 @@ def check(tier, only=None):
         obs = [o for o in obs if only in o.name]
     meta = {
         "bounds": {
-            "outer aggregate": "struct or union, 1..%d members (one obligation per count), sizeof <= 64" % (3 if tier == "quick" else 4),
-            "member kinds": KINDS + "; arrays of 1..3 scalars; nested / anonymous struct or union of 1..2 scalar, array or "
-                            "bit-field members (nesting depth 2); arrays of 1..2 nested aggregates (thorough)",
-            "bit-fields": "declared type any integer kind, _Bool or enum; every width 0..bits(type) (_Bool: 0..1 as gcc "
-                          "accepts); named or unnamed; zero width only unnamed",
-            "argument position": "0..6 general and 0..8 SSE argument registers already used (symbolic)",
-            "loops": "per-loop unwinding bounds with unwinding assertions; update_field_layout's backward scan: sizeof+18",
+            "shape (concrete per obligation)": "outer struct or union with 1..%s members; per member its category: arithmetic "
+                "type, void *, enum, nested struct/union, anonymous struct/union, each optionally an array; for 2 and more "
+                "members the SIZE CLASS of each arithmetic member (char-sized, _Bool, short, int, long-sized, float, double, "
+                "long double) - quick: all pairs over {char, int, long, double, long double} for structs (a selection for "
+                "unions), 2 triples; thorough: all pairs over the 8 classes, 14 triples, 3 quadruples, more nested shapes"
+                % ("3" if tier == "quick" else "4"),
+            "symbolic inside an obligation": "which type of the size class (%s), for every integer/enum member whether it is "
+                "a bit-field, its width 0..bits(type) (_Bool 0..1 as gcc accepts), named or unnamed (zero width only unnamed), "
+                "array length 1..3 (arrays of aggregates 1..2), the types/bit-fields of the members of nested aggregates "
+                "(their size classes fixed: char-sized and long-sized; thorough adds int/int, long/char, double/int, "
+                "long double/char), enum basic type int/unsigned/undefined, 0..6 general and 0..8 SSE argument registers "
+                "already used" % KINDS,
+            "sizeof": "<= min(64, max(16 * smallest member size, size of the declaration without bit-fields)); this keeps "
+                      "update_field_layout's backward scan within the per-loop unwinding bound (unwinding assertions on)",
+            "nesting": "depth 2 (members of nested/anonymous aggregates are arithmetic types, bit-fields or (thorough) arrays)",
+            "re-proofs": "layout obligations named .named-bf exclude the recorded findings (unnamed and zero-width bit-fields; "
+                         "for >= 3 members also a bit-field directly after a bit-field of a narrower declared type); passing "
+                         "obligations named .no-zero-width exclude zero-width bit-fields; the .finding-* obligations show "
+                         "each finding on its smallest shape",
         },
         "assumptions": [
             "no c2mir_init: the type/node/decl graph is built by the harness in the state check() leaves before "
             "create_decl calls set_type_layout (all raw_size = MIR_SIZE_MAX, align = -1, decl offset 0, bit_offset -1); "
-            "curr_scope = NULL (the declaration is complete, we are not inside it); n_errors = 0",
+            "curr_scope = NULL (the declaration is complete, we are not inside it); n_errors = 0; member lists linked by "
+            "hand with the links NL_APPEND produces",
+            "CBMC build only: the unions of the c2mir TU (struct node.u, struct type.u, struct expr.c, ...) are given "
+            "struct layout (#define union struct); exact for the encoded functions because they never read a union member "
+            "other than the one last written (read by type->mode / .ops of list nodes / i_val for array sizes, u_val for "
+            "widths, the harness writes both); counterexamples are replayed natively against the real unions",
             "natural alignment only: no _Alignas, no packed/aligned attributes (c2mir has none)",
             "every aggregate has at least one member that is not an unnamed bit-field (empty aggregates are a GNU extension)",
             "passing obligations are proved for the declarations on which the layout obligations' equalities hold "
@@ -257,9 +285,12 @@ def check(tier, only=None):
             "passing: declarations with an unnamed bit-field inside a union, or an unnamed non-zero-width bit-field "
             "inside a nested aggregate, are left out (psABI gives no rule, gcc's behaviour depends on machine modes; "
             "see ref/sysv_ref.h); an eightbyte consisting of padding only is left out",
-            "the oracle models gcc >= 12 (zero-width bit-fields ignored by the classification, psABI clarification of 2021)",
-            "what is compared is the DECISION (classes, block type, registers, hidden pointer); the MIR-level moves that "
-            "implement a chosen block type are C05/C06, the code gen() emits for member accesses is outside C08's encoding",
+            "the oracle models gcc >= 12 (zero-width bit-fields ignored by the classification, psABI clarification of 2021) "
+            "and is cross-checked against the installed gcc by ref/sysv_ref_selftest.py (layout, argument registers/stack, "
+            "result registers/hidden pointer on generated declarations)",
+            "what is compared is the DECISION (classes, block type, registers, hidden pointer, register width covers the "
+            "bytes); the MIR-level moves that implement a chosen block type are C05/C06, the code gen() emits for member "
+            "accesses is outside C08's encoding",
             "enum: values fit int or unsigned (c2mir basic type TP_INT/TP_UINT, or the undefined-enum default)",
         ],
     }
